@@ -107,15 +107,29 @@ def val_to_py(v):
     return v.get("data")
 
 
-def extract_inputs(trace, entry):
+def extract_inputs(trace, entry, harness=None):
     """last value assigned to each variable of the harness entry function (the ND()/ND_ARR() inputs are among them;
-    the native replayer looks inputs up by name and ignores the rest)"""
+    the native replayer looks inputs up by name and ignores the rest).  Inputs that the entry function does not declare
+    itself (a harness whose entries share one body function) are then taken from the other functions of the harness file."""
+    vals = _extract_inputs(trace, lambda sl: sl.get("function") == entry)
+    if harness:
+        hb = os.path.basename(harness)
+        want = set(harness_inputs(harness)) - set(vals)
+        if want:
+            more = _extract_inputs(trace, lambda sl: os.path.basename(sl.get("file") or "") == hb and sl.get("function") != entry)
+            for k in want:
+                if k in more:
+                    vals[k] = more[k]
+    return vals
+
+
+def _extract_inputs(trace, in_scope):
     vals = {}
     for st in trace:
         if st.get("stepType") != "assignment":
             continue
         sl = st.get("sourceLocation") or {}
-        if sl.get("function") != entry or st.get("assignmentType") == "actual-parameter":
+        if not in_scope(sl) or st.get("assignmentType") == "actual-parameter":
             continue            # (parameters of callees are assigned at the call site and may share a name with an input)
         lhs = st.get("lhs", "")
         if "$" in lhs or lhs.startswith("return_value") or lhs.startswith("goto_symex"):
@@ -432,7 +446,7 @@ def run_obligation(ob, scratch, tier, kf_defines, prop=None):
                 res.setdefault("other_property_failures", []).append(f)
                 continue
             if p.get("trace"):
-                f["inputs"] = extract_inputs(p["trace"], entry)
+                f["inputs"] = extract_inputs(p["trace"], entry, os.path.join(VERIF, "harness", ob["harness"]) if ob.get("harness") else None)
                 f["trace_tail"] = _trace_tail(p["trace"])
             fails.append(f)
     kf_fail = [f for f in fails if f["class"] == "known-finding"]
